@@ -10,6 +10,7 @@
      1007 a terminated application is still listed by a queue
      1008 an ask for a terminated application was not rejected
      1050 = 1003 inside the window of finding C10-completed-live-alloc (DESIGN 7 #13)
+     1052 = 1004 inside the same window (the outstanding ask is the real half of the swap being confirmed)
      1051 = 1004 inside the window of finding C10-completed-outstanding-swap (DESIGN 7 #17) *)
 From Coq Require Import List ZArith NArith Bool.
 From YK Require Import Base.Res Core.Obs Core.AppLife.
@@ -102,7 +103,10 @@ Definition idle_completing (pre : ostate) (st : ostep) : bool :=
   match st_op st with
   | OpRelease app _ _ =>
       match find_app pre app, find_app (st_obs st) app with
-      | Some a, Some a' => negb (negb (app_empty a) && app_empty a') || completing_or_further (ap_state a')
+      | Some a, Some a' => negb (negb (app_empty a) && app_empty a') || completing_or_further (ap_state a') ||
+                           (* soft gang restart: the last timed-out placeholder of a Resuming application is confirmed and the
+                              application is handed back to Accepted to wait for its real asks, like a freshly accepted one *)
+                           ((ap_state a =? ST_Resuming) && (ap_state a' =? ST_Accepted))
       | _, _ => true
       end
   | _ => true
@@ -158,6 +162,21 @@ Definition window_13 (pre : ostate) (st : ostep) : bool :=
       end
   | _ => false
   end.
+(* #13 seen by clause 1004: the same confirmation; the ask left outstanding is the real half of the swap being confirmed *)
+Definition window_13b (pre : ostate) (st : ostep) : bool :=
+  match st_op st with
+  | OpRelease app key ty =>
+      (ty =? TT_PlaceholderReplaced) &&
+      match find_app pre app with
+      | Some a =>
+          (ap_state a =? ST_Completing) && negb (ap_statetimer a) && became_completed pre (st_obs st) a &&
+          forallb (fun r => oa_release r =? key) (left_outstanding (st_op st) a) &&
+          forallb (fun b => (ap_id b =? app) || negb (became_completed pre (st_obs st) b) ||
+                            match left_outstanding (st_op st) b with [] => true | _ => false end) (s_apps pre)
+      | None => false
+      end
+  | _ => false
+  end.
 (* #17: every ask left outstanding is the real half of a swap whose placeholder is gone
    (the shim stopped the placeholder with a swap in flight; the real ask stays allocated=true and linked) *)
 Definition window_17 (pre : ostate) (st : ostep) : bool :=
@@ -177,7 +196,7 @@ Definition c10_step (idx : N) (pre : ostate) (m : list (N * N)) (st : ostep) : l
    flag idx 1001 (newly statelogs_ok pre post) ++
    flag idx 1002 (sok && updates_match_state st) ++
    (if newly completed_clean pre post then [] else [(idx, if window_13 pre st then 1050 else 1003)]) ++
-   (if completed_no_outstanding pre st then [] else [(idx, if window_17 pre st then 1051 else 1004)]) ++
+   (if completed_no_outstanding pre st then [] else [(idx, if window_13b pre st then 1052 else if window_17 pre st then 1051 else 1004)]) ++
    flag idx 1005 (idle_completing pre st) ++
    flag idx 1006 (idle_completes pre st) ++
    flag idx 1007 (newly terminated_unqueued pre post) ++
